@@ -35,6 +35,18 @@ CLAIMED = {
             "Proof: every call made by any sequence of pushes/resets from any state passes only non-empty slices and is slice-less only with end=true; reset outside a unit makes no call; reset returns the reader to its initial state (the only cross-call memory), so later behaviour equals a new reader's; a reset-terminated section makes exactly as many end calls as its stream has units. Tied to annexb.rs by raw-trace equality on all streams <= 5 bytes x all partitions x resets at every cut, replayed against a fresh reader.",
             "Trusted: as C01.",
             "DESIGN.md 5 C18"),
+    "C19": ("Coq proof (induction over insertion histories) that the Vec<Option<T>> map model is a last-writer-wins map + exhaustive differential execution through the public Context API",
+            "Proof: lookup after any sequence of insertions returns the last value written under that id and nothing otherwise; iteration yields the stored values once each in increasing id order; the SPS and PPS stores are independent; lookups made by the PPS/slice/buffering-period models see the latest definition. Tied to lib.rs by all histories <= 3 insertions over boundary ids (0,1,2,30,31 / 0,1,31,32,254,255) with lookups of every id and iteration, plus random long histories over the full ranges.",
+            "Trusted: Coq kernel; insertions use parameter sets obtained from the parsers (the only public way).",
+            "DESIGN.md 5 C19"),
+    "C16": ("Coq weakest-precondition proofs through the whole SPS / PPS / slice-header parser models (every read, check and loop) + exhaustive differential execution on all short RBSPs",
+            "Proof: for every input the SPS model never aborts and an accepted SPS satisfies inv_sps (id < 32, log2 sizes <= 12+4, bit depths <= 6+8, <= 255 POC offsets, 1..32 CPBs, restriction fields <= 16 and consistent with max_num_ref_frames, 6+2|6 scaling lists of 16/64 non-zero entries); under any context of accepted SPS an accepted PPS satisfies inv_pps (refers to a context SPS, ref counts <= 32, <= 8 groups, offsets in range); under any context of accepted sets an accepted slice header satisfies inv_slice (frame_num / POC lsb below moduli, ref counts <= 32, QS 0..51, returned ids name context entries); contexts are closed under insertion of accepted sets. Tied to the crate by all RBSPs <= 2 bytes per parser under 4 contexts plus mutated valid sets, with the invariants re-evaluated on the implementation's own results.",
+            "Trusted: Coq kernel; parser models tied by correspondence (C04-C06 generators too).",
+            "DESIGN.md 5 C16"),
+    "C13": ("Coq proof (case analysis + nia over N/Z) of the model's pixel_dimensions against the standard's formulas; complete table sweeps for level/profile; differential execution with an independent integer oracle",
+            "Proof: for every SPS with ue-range sizes, pixel_dimensions of the model returns the standard's cropped frame size exactly when every product fits 32 bits and the crop lies within the picture, an error otherwise, never a panic; fps is the exact rational time_scale/(2*num_units_in_tick); the +1 / saturating helpers never overflow on accepted SPS; all 256 profile bytes and 65536 (flags, level) pairs of the implementation map back to their idc (theorems about the dumped tables). Tied to the crate on extreme-value SPS; fps compared as the correctly rounded f64.",
+            "Trusted: Coq kernel; f64 division and rfc6381-codec's Display are modelled, not verified.",
+            "DESIGN.md 5 C13"),
 }
 
 PENDING_REASON = "not claimed yet in this revision: model and theorems for this layer are still being built (see DESIGN.md section 9 for the order of work)"
